@@ -119,13 +119,30 @@ def rand_tempo(rng: random.Random, prof: Profile, res: int):
     return out
 
 
-WORDS = ["solo", "soloend", "x", "a_b", "[idle]", "E", "N", "=", "k=v", "é", "日本", "a\tb", "7", "S2", "\"q\"", "e\u0301", "\u212b", "\u2126x", "100%", "%s", "{0}", "//", "x//", "see:http://example.org/x", "a//b//c", "#c", "\\\\x", "\u201cq\u201d"]
+WORDS = ["solo", "soloend", "x", "a_b", "[idle]", "E", "N", "=", "k=v", "é", "日本", "a\tb", "7", "S2", "\"q\"", "e\u0301", "\u212b", "\u2126x", "100%", "%s", "{0}", "//", "x//", "see:http://example.org/x", "a//b//c", "#c", "\\\\x", "\u201cq\u201d",
+         # invisible characters, closing braces and signs are ordinary word characters
+         "a\u200db", "\u200c", "x\u200e", "\ufeffq", "solo}", "}", "{x}", "+1", "-", "a=b", "1_0"]
 TEXT_ATOMS = ["lyric", "section", "lyric ", "section ", "Lyric ", "SECTION ", "Section ", "LYRIC ", "ſection ", " ", "  ", "\"", "=", "[", "]", "{", "}", "la", "Intro", "1", "é",
               "日本", "\t", "E", "phrase_start", "a", "-", "'", "\\", "\xa0", "N 0 0",
               # text that is not in a Unicode normal form (decomposed accents, singleton code points, compatibility forms): verbatim means verbatim
               "e\u0301", "\u212b", "\u2126", "\u30cf\u3099", "\ufb01", "\u1e9b\u0323", "\u00c5", "\uff21", "\u0130", "\u00df", "%s", "{0}",
               # what other formats treat as comments, escapes or quotes is ordinary text here
-              "//", " // ", "http://x", "a//b", "#", ";", "\\\\", "\\n", "\u201c", "\u201d", "\u2018", "/*", "*/", "<!--"]
+              "//", " // ", "http://x", "a//b", "#", ";", "\\\\", "\\n", "\u201c", "\u201d", "\u2018", "/*", "*/", "<!--",
+              # invisible and directional characters (zero-width joiners, marks, BOM inside a value), the separator itself, braces at the end
+              "\u200b", "\u200c", "\u200d", "\u200e", "\u200f", "\u202e", "\u2060", "\u2066", "\u2069", "\ufeff", "\u00ad", "\U0001f468\u200d\U0001f469",
+              " = ", "1 + 1 = 2", " = E ", "}", "x}", "\x7f", "\x01"]
+
+
+# Magnitudes at which fixed-width integers, doubles, "sane maximum" clamps and digit-count limits change behaviour. Any numeric
+# dimension of an input (a tick, a distance, a length, a count) is tried at a few of these besides its ordinary range.
+LADDER = sorted({0, 1, 2, 3} | {2**k + d for k in (7, 8, 15, 16, 24, 31, 32, 33, 53, 63, 64) for d in (-1, 0, 1)} | {10**k for k in (3, 6, 9, 10, 12, 18)}
+                | {32 * 192 + 1, 33 * 480, 64 * 960, 999_999_999, 1_000_000_000})
+
+
+def ladder(rng: random.Random, lo=0, hi=None, k=3):
+    """k seeded rungs of the ladder within [lo, hi]"""
+    c = [x for x in LADDER if x >= lo and (hi is None or x <= hi)]
+    return rng.sample(c, min(k, len(c)))
 
 
 def rand_text(rng: random.Random, prof: Profile) -> tuple[str, str]:
@@ -210,6 +227,11 @@ def rand_src(rng: random.Random, prof: Profile | None = None) -> ChartSrc:
     tss = [(0, rng.randint(1, 12), rng.choice([None, None, 0, 1, 2, 3, 4]))]
     t = 0
     for _ in range(rng.randint(0, 2)):
+        if rng.random() < 0.2:
+            # a second signature line on the same tick (same or another numerator, with / without the exponent): two events
+            up = tss[-1][1] if rng.random() < 0.6 else rng.randint(1, 16)
+            tss.append((t, up, rng.choice([None, 0, 2, 3, 5, tss[-1][2]])))
+            continue
         t += rng.randint(0, last + 500)
         tss.append((t, rng.randint(1, 16), rng.choice([None, 0, 2, 3, 5])))
     anchors = [(rng.randint(0, last + 100), rng.randint(0, 10**8)) for _ in range(rng.choice([0, 0, 0, 1, 2]))]
